@@ -547,11 +547,13 @@ impl Slate {
 		// we could just overwrite the fee here (but we won't) due to the sig
 		let fee = tx_fee(tx.inputs().len(), tx.outputs().len(), tx.kernels().len());
 
-		if fee > tx.fee() {
+		// a node's pool compares the fee shifted right by the kernel's fee shift with the
+		// minimum for the weight, so a shift in the fee field lowers what the fee counts for
+		if fee > tx.shifted_fee() {
 			// apply fee mask past HF4
 			return Err(Error::Fee(format!(
 				"Fee Dispute Error: {}, {}",
-				tx.fee(),
+				tx.shifted_fee(),
 				fee,
 			)));
 		}
